@@ -565,12 +565,15 @@ type PktSpec struct {
 	Tag        int       `json:"tag,omitempty"`
 	// Stale > 0 with HasPayload false: the Payload slice is left set (a reused Packet struct)
 	Stale int `json:"stale,omitempty"`
+	// Wide: bits above the 13-bit PID field set in the PID handed to WritePacket (an
+	// out-of-range argument: rejected, or written as the 13-bit PID - never into other header bits)
+	Wide uint16 `json:"wide,omitempty"`
 }
 
 func (p *PktSpec) ToAstits() *astits.Packet {
 	o := &astits.Packet{Header: astits.PacketHeader{
 		ContinuityCounter: p.CC, HasAdaptationField: p.AF != nil, HasPayload: p.HasPayload,
-		PayloadUnitStartIndicator: p.PUSI, PID: p.PID, TransportPriority: p.Prio, TransportScramblingControl: p.TSC,
+		PayloadUnitStartIndicator: p.PUSI, PID: p.PID | p.Wide&0xe000, TransportPriority: p.Prio, TransportScramblingControl: p.TSC,
 	}}
 	o.AdaptationField = AFToAstits(p.AF)
 	if p.HasPayload {
